@@ -77,8 +77,17 @@ func VerifC03_BedStructured() {
 	ncols := bedType
 	use := append([][]byte(nil), cols[:ncols]...)
 	missing := false
-	mutation := verifChoice("mutation", 6)
+	mutation := verifChoice("mutation", 7)
 	switch mutation {
+	case 6: // a numeric column spelled with two arbitrary printable bytes
+		numeric := []int{1, 2, 4, 6, 7, 9}
+		var ks []int
+		for _, k := range numeric {
+			if k < ncols {
+				ks = append(ks, k)
+			}
+		}
+		use[ks[verifChoice("symcol", len(ks))]] = []byte{verifByte("sym0", 0x21, 0x7e), verifByte("sym1", 0x21, 0x7e)}
 	case 1:
 		k := verifChoice("delcol", ncols)
 		use = append(append([][]byte(nil), use[:k]...), use[k+1:]...)
